@@ -9,12 +9,42 @@ open Lean JrsVerif.J JrsVerif.StdObj
     {"$e":1}                                          failing thunk (`error "x"`)
     {"$fn":n}                                         function of n parameters
     {"$o":[[ [name, "n"|"h"|"u", plus, term], … ], …]}  input: inheritance chain of layers
-    {"$o":[[name, hidden, term], …]}                  output: flattened, all names ascending -/
+    {"$o":[[name, hidden, term], …]}                  output: flattened, all names ascending
+    string PRODUCTIONS (input only; the value is the text, whatever built it — the harness writes
+    the same text as different Jsonnet expressions, so that the evaluator holds it as a flat
+    string or as ropes with different split points):
+    {"$cat":[s,…],"by":k}   concatenation (`a + b + …`, std.format("%s%s",[a,b]), std.join("",[…]), `"%s%s" % […]`)
+    {"$rep":[s,n]}          std.repeat(s, n)
+    {"$chr":n}              std.char(n)
+    {"$w":[kind,s]}         a text-preserving wrapper (std.toString, substr of s+"##", identity call, …)
+    a field NAME of an input layer may be such a production (computed field name `[e]:`) -/
 
 def toVis : String → Option Vis
   | "n" => some .normal
   | "h" => some .hidden
   | "u" => some .unhide
+  | _ => none
+
+/-- text of a string production (independent of how the evaluator represents it) -/
+partial def strOf (j : Json) : Option String :=
+  match j with
+  | .str s => some s
+  | .obj _ =>
+    match j.getObjVal? "$cat" with
+    | .ok (.arr ts) => (ts.toList.mapM strOf).map String.join
+    | _ =>
+      match j.getObjVal? "$rep" with
+      | .ok (.arr #[t, n]) => do
+          let s ← strOf t
+          let n ← n.getNat?.toOption
+          pure (String.join (List.replicate n s))
+      | _ =>
+        match j.getObjVal? "$chr" with
+        | .ok n => (n.getNat?.toOption).map (fun n => String.singleton (Char.ofNat n))
+        | _ =>
+          match j.getObjVal? "$w" with
+          | .ok (.arr #[_, t]) => strOf t
+          | _ => none
   | _ => none
 
 partial def toV (j : Json) : Option V :=
@@ -25,6 +55,9 @@ partial def toV (j : Json) : Option V :=
   | .str s => some (.str s)
   | .arr a => (a.toList.mapM toV).map (fun l => V.arr (VL.ofList l))
   | .obj _ =>
+    match strOf j with
+    | some s => some (.str s)
+    | none =>
     match j.getObjVal? "$e" with
     | .ok _ => some .err
     | _ =>
@@ -37,7 +70,8 @@ partial def toV (j : Json) : Option V :=
             match l with
             | Json.arr fs => fs.toList.mapM (fun f =>
                 match f with
-                | Json.arr #[Json.str n, Json.str v, Json.bool p, t] => do
+                | Json.arr #[nm, Json.str v, Json.bool p, t] => do
+                    let n ← strOf nm
                     let vis ← toVis v
                     let tv ← toV t
                     pure ({ name := n, vis := vis, plus := p, val := tv } : LField)
@@ -67,6 +101,25 @@ def asStr : V → Option String | .str s => some s | _ => none
 def asBool : V → Option Bool | .bool b => some b | _ => none
 
 def natV (n : Nat) : V := .num (Int.ofNat n)
+
+/-- `std.member(arr, x)`: the elements in order, the first equal one answers -/
+def memberL : List V → V → Option Bool
+  | [], _ => some false
+  | e :: es, x =>
+    match equals e x with
+    | none => none
+    | some true => some true
+    | some false => memberL es x
+
+def asStrList : V → Option (List String)
+  | .arr xs => xs.toList.mapM asStr
+  | _ => none
+
+/-- `a < b` on strings: lexicographic by code point -/
+def strCmp (f : Bool → Bool → Bool) (x y : V) : Option V := do
+  let a ← asStr x
+  let b ← asStr y
+  pure (.bool (f (decide (a < b)) (a == b)))
 
 /-- (model, spec) of `std.<fn>(args)`; `f` names a pool function -/
 def call (fn : String) (f : String) (a : List V) : Option (Option V × Option V) :=
@@ -122,6 +175,29 @@ def call (fn : String) (f : String) (a : List V) : Option (Option V × Option V)
   | "equals", [x, y] => both ((equals x y).map V.bool)
   | "primitiveEquals", [x, y] => both ((primitiveEquals x y).map V.bool)
   | "assertEqual", [x, y] => both ((assertEqual x y).map V.bool)
+  -- the operators (`==` / `!=` are `equals`; the order operators are served for two strings only,
+  -- numeric and array order are C09's / C08's)
+  | "opEq", [x, y] => both ((equals x y).map V.bool)
+  | "opNe", [x, y] => both ((equals x y).map (fun b => V.bool (!b)))
+  | "opLt", [x, y] => both (strCmp (fun lt _ => lt) x y)
+  | "opLe", [x, y] => both (strCmp (fun lt eq => lt || eq) x y)
+  | "opGt", [x, y] => both (strCmp (fun lt eq => !(lt || eq)) x y)
+  | "opGe", [x, y] => both (strCmp (fun lt _ => !lt) x y)
+  | "opIn", [k, o] => both (do pure (V.bool (hasAll (← asObj o) (← asStr k))))
+  | "opIndex", [o, k] => both (do
+      let o ← asObj o
+      let k ← asStr k
+      if hasAll o k then force (getLazy o k) else none)
+  -- `std.setMember(x, set)`: `set` is a strictly ascending array of strings (the harness sorts it
+  -- by text), `x` a string: membership
+  | "setMember", [x, s] => both (do
+      let x ← asStr x
+      let l ← asStrList s
+      pure (V.bool (l.contains x)))
+  | "member", [a, x] =>
+    match a with
+    | .arr xs => both ((memberL xs.toList x).map V.bool)
+    | _ => none
   -- spec only: the shared-pointer shortcut (`equalsSame`) is a known finding; the theorems
   -- `equalsSame_*` of Props/C13 describe exactly where it differs from `equals x x`
   | "equalsSame", [x] => some (none, (equals x x).map V.bool)
